@@ -32,11 +32,11 @@ type Case struct {
 	NoUnset bool     `json:"nounset"`
 	IFS     string   `json:"ifs"`
 	IFSSet  bool     `json:"ifs_set"`
-	Args    []string `json:"args"`  // positional parameters $1...
-	Opts    string   `json:"opts"`  // value of $-
-	Glob    bool     `json:"glob"`  // pathname expansion is on (the f option is off); the check runs in an empty directory
+	Args    []string `json:"args"`        // positional parameters $1...
+	Opts    string   `json:"opts"`        // value of $-
+	Glob    bool     `json:"glob"`        // pathname expansion is on (the f option is off); the check runs in an empty directory
 	EmptyN0 bool     `json:"empty_name0"` // $0 is the empty string
-	Other   string   `json:"other"` // value of the variable o used by WP{var}
+	Other   string   `json:"other"`       // value of the variable o used by WP{var}
 	Pid     int      `json:"-"`
 	Name0   string   `json:"name0"`
 }
